@@ -60,6 +60,9 @@ cdistinct = z3.Function('cdistinct', CSeq, Bool)       # pairwise distinct claus
 cmem = z3.Function('cmem', ISeq, CSeq, Bool)           # membership
 cset = z3.Function('cset', CSeq, SeqSet)               # the set of the clauses of a list
 csubsel = z3.Function('csubsel', CSeq, CSeq, Bool)     # R lists elements of F at pairwise distinct positions (random.sample)
+signvecsm = z3.Function('signvecsm', Int, CSeq)         # itertools.product([-1, 1], repeat=k): all sign vectors, -1 first
+ysign = z3.Function('ysign', Int, ISeq, Int, CSeq)     # (k, domain, j): the planted-compatible clauses among the first j sign patterns over the domain
+ydom = z3.Function('ydom', Int, Int, Int, CSeq)        # (k, n, t): the same over the first t domains (k-subsets of 1..n in itertools order)
 navail_x = z3.Function('navail_x', Int, Int, Int)          # number of k-parities over n variables compatible with the planted assignments (uninterpreted)
 navail_p = z3.Function('navail_p', Int, Int, Int)          # number of k-clauses over n variables compatible with the planted assignments of the call (uninterpreted)
 gedge1 = z3.Function('gedge1', Int, Int, Int)              # e-th edge (as enumerated by G.edges()): first endpoint
@@ -187,7 +190,7 @@ FUNCS = dict(tlen=tlen, tcoef=tcoef, tlit=tlit, tunit=tunit, tnegc=tnegc, tset=t
              ilen=ilen, iget=iget, inil=inil, isnoc=isnoc, iapp=iapp, ineg=ineg, haszero=haszero,
              maxof=maxof, minof=minof, maxabs=maxabs, lit_true=lit_true, count=count, ctrue=ctrue,
              clen=clen, cget=cget, cnil=cnil, csnoc=csnoc, capp=capp, ctake=ctake, combs=combs, sat=sat,
-             cmaxabs=cmaxabs, pow2=pow2, chaszero=chaszero, psum=psum, card2=card2, isperm=isperm, sortedperm=sortedperm, invperm=invperm, imapsub=imapsub, zpos=zpos, mpos=mpos, rnbrs=rnbrs, apseq=apseq, negunits=negunits, idxcombs=idxcombs, iflip1=iflip1, iflips=iflips, neqprefix=neqprefix, signvecs=signvecs, sprod=sprod, smul=smul, pfilter=pfilter, iofarr=iofarr, nbrs=nbrs, evar=evar, liftcls=liftcls, liftsem=liftsem, yblock=yblock, psat=psat, valid1=valid1, cvalid=cvalid, cdistinct=cdistinct, cmem=cmem, cset=cset, csubsel=csubsel, implchain=implchain, ishift=ishift, preds=preds, outdeg=outdeg, gtopo=gtopo, gsinkok=gsinkok,
+             cmaxabs=cmaxabs, pow2=pow2, chaszero=chaszero, psum=psum, card2=card2, isperm=isperm, sortedperm=sortedperm, invperm=invperm, imapsub=imapsub, zpos=zpos, mpos=mpos, rnbrs=rnbrs, apseq=apseq, negunits=negunits, idxcombs=idxcombs, iflip1=iflip1, iflips=iflips, neqprefix=neqprefix, signvecs=signvecs, sprod=sprod, smul=smul, pfilter=pfilter, iofarr=iofarr, nbrs=nbrs, evar=evar, liftcls=liftcls, liftsem=liftsem, yblock=yblock, signvecsm=signvecsm, ysign=ysign, ydom=ydom, psat=psat, valid1=valid1, cvalid=cvalid, cdistinct=cdistinct, cmem=cmem, cset=cset, csubsel=csubsel, implchain=implchain, ishift=ishift, preds=preds, outdeg=outdeg, gtopo=gtopo, gsinkok=gsinkok,
              ev3=ev3, evrow=evrow, rowapp=rowapp, rowsfrom=rowsfrom, dropc=dropc, dterms=dterms, dcons=dcons, tevent=tevent, cevent=cevent, dlits=dlits, dclauses=dclauses, levent=levent, gad=gad, cdist_tab=cdist_tab, cdist=cdist, cdistall=cdistall, cind=cind, satind=satind, aind=aind)
 
 
@@ -356,6 +359,19 @@ def _on_terms(terms_by_decl):
         out += [z3.Implies(k >= 0, clen(t) == k),
                 z3.Implies(z3.And(xo >= 0, yo >= 0, z3.Or(sg == 1, sg == -1)), z3.And(z3.Not(chaszero(t)), cmaxabs(t) <= zmax(xo, yo) + zmax(k, 0)))]
     # --- samplers
+    for (k, d, j) in terms_by_decl.get('ysign', []):
+        # Sample.lean ysign_zero / ysign_succ: filter of the sign patterns by the planted assignments
+        c = smul(cget(signvecsm(k), j), d)
+        out.append(z3.Implies(j == 0, ysign(k, d, j) == cnil))
+        out.append(z3.Implies(z3.And(0 <= j, j < pow2(k), k >= 0),
+                              ysign(k, d, j + 1) == z3.If(psat(c), csnoc(ysign(k, d, j), c), ysign(k, d, j))))
+    for (k, n, t) in terms_by_decl.get('ydom', []):
+        D = combs(apseq(z3.IntVal(1), n), k)
+        out.append(z3.Implies(t == 0, ydom(k, n, t) == cnil))
+        out.append(z3.Implies(z3.And(0 <= t, t < clen(D)), ydom(k, n, t + 1) == capp(ydom(k, n, t), ysign(k, cget(D, t), pow2(k)))))
+        # Sample.lean all_clauses_spec: the full enumeration lists every compatible clause exactly once
+        out.append(z3.Implies(z3.And(k >= 0, n >= 0, t == clen(D)),
+                              z3.And(cdistinct(ydom(k, n, t)), cvalid(k, n, ydom(k, n, t)), clen(ydom(k, n, t)) == navail_p(k, n))))
     jv, iv2 = z3.Int('j!v1'), z3.Int('i!v1')
     for (k, n, c) in terms_by_decl.get('valid1', []):
         # definition (Sample.lean valid1_def) and its consequences for the literal bounds
@@ -537,6 +553,8 @@ def _on_terms(terms_by_decl):
                            neqprefix(sq, c, t + 1) == csnoc(neqprefix(sq, c, t), iflips(sq, cget(idxcombs(n, c), t), c))),
                 z3.Implies(z3.And(0 <= t, t <= clen(idxcombs(n, c))), z3.And(cmaxabs(neqprefix(sq, c, t)) <= maxabs(sq),
                            z3.Implies(z3.Not(haszero(sq)), z3.Not(chaszero(neqprefix(sq, c, t))))))]
+    for (n,) in terms_by_decl.get('signvecsm', []):
+        out.append(z3.Implies(n >= 0, clen(signvecsm(n)) == pow2(n)))          # Bits.lean length_signs (same enumeration, other order)
     for (n,) in terms_by_decl.get('signvecs', []):
         out.append(z3.Implies(n >= 0, clen(signvecs(n)) == pow2(n)))           # Bits.lean length_signs
     for (l, d, t) in terms_by_decl.get('pfilter', []):
